@@ -391,6 +391,12 @@ impl Engine {
         vec![Coin::new(amount, denom)]
     }
 
+    /// the configured protocol prefix is not the chain's own: addresses the generators build (under the
+    /// chain prefix) are no longer valid for the contract, so success predictions are adopted
+    pub fn prefix_foreign(&self) -> bool {
+        self.m.cfg.pprefix != self.a.pprefix
+    }
+
     pub fn oracle_live(&self) -> bool {
         self.m.cfg.oracle.is_some()
     }
